@@ -54,6 +54,20 @@ func c07FaultScens(tier string) []e1Scen {
 			}
 		}
 	}
+	// ... and after the very first Write failed half-way: the first segment file of the first stream was created, that of
+	// the second (or third) stream could not be
+	for _, variant := range []string{"fmp4", "ll"} {
+		for _, tracks := range [][]string{{"h264", "aac44"}, {"aac44", "h264"}, {"h264", "aac44", "opus"}} {
+			cfg := mcfg(variant, true, 3, tracks...)
+			if variant == "ll" {
+				cfg.SegCount = 7
+			}
+			word := []sym{{T: cfg.leading(), D: "q", K: "R"}, {T: cfg.leading(), D: "q", K: "n"}, {T: cfg.leading(), D: "q", K: "n"}, {T: cfg.leading(), D: "q", K: "n"}}
+			for blocked := 1; blocked < len(tracks); blocked++ {
+				out = append(out, e1Scen{Prop: "C07", Cfg: cfg, Alpha: word, Mode: "firstfault", Len: 4, FaultAt: blocked, Name: fmt.Sprintf("close-after-first-segment-fault-stream%d", blocked)})
+			}
+		}
+	}
 	// ... and after a Write that failed in the middle of a part rotation (Low-Latency: the open part could not be written
 	// to storage), at several part indices, RAM and Directory storage
 	for _, disk := range []bool{false, true} {
